@@ -1,4 +1,5 @@
 import Pms.Props.C16
+import Pms.Props.C16Mod
 
 #print axioms Pms.Coarse.C16_spatial_avg
 #print axioms Pms.Coarse.C16_spatial_refines
@@ -27,3 +28,4 @@ import Pms.Props.C16
 #print axioms Pms.Coarse.C16_time_refines
 #print axioms Pms.Coarse.C16_time_middle
 #print axioms Pms.Coarse.C16_middle_central
+#print axioms Pms.ModShape.C16_module_shape
